@@ -1,56 +1,461 @@
 //! Witness search for C08 (streaming validator, FOOTER-LESS xorbs): when `validate_cas_object_from_async_read` accepts a stream
 //! without a footer it GENERATES the footer it returns; that footer must match the chunk data (C08: "any footer it relied on
-//! matches the chunk data") or the stream must be rejected.  Inputs: streams of many highly compressible maximum-size chunks
-//! whose unpacked total is just below / at / above the u32 range of the footer's unpacked offsets (a few MB on the wire).
+//! matches the chunk data") or the stream must be rejected.
+//!   (A) small hand-built streams (stored chunks with hand-made headers; independent hashes, boundaries, root): footer-less, with
+//!       an own-layout V1 footer, with a V0 footer (the validator then builds a new footer and answers go_back_bytes = 8), with
+//!       trailing garbage of 1..9 bytes, unknown footer versions, truncated footers, bytes after the footer, footers that contradict
+//!       the chunk data, wrong hashes - each through readers that deliver everything at once / 1 byte per read / random pieces /
+//!       with Pending in between, and readers that fail mid-stream.
+//!   (B) streams of many highly compressible maximum-size chunks whose unpacked total is just below / at / above the u32 range of
+//!       the footer's unpacked offsets (a few MB on the wire); the four sizes run in parallel threads.
 //! Prints `WITNESS ...` and exits 1 on the first violation.
 use std::panic::{catch_unwind, AssertUnwindSafe};
+use std::pin::Pin;
+use std::task::{Context, Poll};
 
-use cas_object::{serialize_chunk, validate_cas_object_from_async_read, CompressionScheme};
+use cas_object::{serialize_chunk, validate_cas_object_from_async_read, CasObject, CompressionScheme};
 use futures::executor::block_on;
-use merklehash::compute_data_hash;
+use merklehash::{compute_data_hash, MerkleHash};
 
-fn main() {
+fn witness(msg: String) -> ! {
+    println!("WITNESS {msg}");
+    std::process::exit(1);
+}
+
+// ---------------------------------------------------------------------------------------------------------------------------------
+// independent reference: published keys, level-wise aggregate construction, footer layouts
+// ---------------------------------------------------------------------------------------------------------------------------------
+
+const DATA_KEY: [u8; 32] = [102, 151, 245, 119, 91, 149, 80, 222, 49, 53, 203, 172, 165, 151, 24, 28, 157, 228, 33, 16, 155, 235, 43, 88, 180, 208, 176, 75, 147, 173, 242, 41];
+const INTERNAL_KEY: [u8; 32] = [1, 126, 197, 199, 165, 71, 41, 150, 253, 148, 102, 102, 180, 138, 2, 230, 93, 221, 83, 111, 55, 199, 109, 210, 248, 99, 82, 230, 74, 83, 113, 63];
+
+fn leaf_hash(b: &[u8]) -> MerkleHash {
+    MerkleHash::from(*blake3::keyed_hash(&DATA_KEY, b).as_bytes())
+}
+fn words(h: &MerkleHash) -> [u64; 4] {
+    [h[0], h[1], h[2], h[3]]
+}
+fn hash_bytes(h: &MerkleHash) -> [u8; 32] {
+    let mut o = [0u8; 32];
+    for (w, v) in words(h).iter().enumerate() {
+        o[8 * w..8 * w + 8].copy_from_slice(&v.to_le_bytes());
+    }
+    o
+}
+/// level by level; cut after child i when it is the last, or the group has >= 2 earlier children and word 3 of child i is 0 mod 4,
+/// or the group has 8 earlier children; group hash = keyed hash of the lines "<64 hex digits> : <decimal length>\n"
+fn reference_root(list: &[(MerkleHash, usize)]) -> MerkleHash {
+    if list.is_empty() {
+        return MerkleHash::default();
+    }
+    let mut level = list.to_vec();
+    while level.len() > 1 {
+        let mut next = vec![];
+        let mut start = 0;
+        for i in 0..level.len() {
+            let earlier = i - start;
+            if (earlier >= 2 && level[i].0[3] % 4 == 0) || earlier >= 8 || i + 1 == level.len() {
+                let mut text = String::new();
+                let mut total = 0;
+                for (h, n) in &level[start..=i] {
+                    text.push_str(&format!("{:016x}{:016x}{:016x}{:016x} : {}\n", h[0], h[1], h[2], h[3], n));
+                    total += n;
+                }
+                next.push((MerkleHash::from(*blake3::keyed_hash(&INTERNAL_KEY, text.as_bytes()).as_bytes()), total));
+                start = i + 1;
+            }
+        }
+        level = next;
+    }
+    level[0].0
+}
+
+struct Truth {
+    stream: Vec<u8>,
+    hashes: Vec<MerkleHash>,
+    bounds: Vec<u32>,
+    unpacked: Vec<u32>,
+    root: MerkleHash,
+}
+
+/// stored (scheme 0) chunks with hand-made 8-byte headers
+fn build(chunks: &[Vec<u8>]) -> Truth {
+    let mut t = Truth { stream: vec![], hashes: vec![], bounds: vec![], unpacked: vec![], root: MerkleHash::default() };
+    let mut u = 0u32;
+    for c in chunks {
+        let n = c.len();
+        t.stream.extend_from_slice(&[0, n as u8, (n >> 8) as u8, (n >> 16) as u8, 0, n as u8, (n >> 8) as u8, (n >> 16) as u8]);
+        t.stream.extend_from_slice(c);
+        t.hashes.push(leaf_hash(c));
+        t.bounds.push(t.stream.len() as u32);
+        u += n as u32;
+        t.unpacked.push(u);
+    }
+    t.root = reference_root(&t.hashes.iter().zip(chunks).map(|(h, c)| (*h, c.len())).collect::<Vec<_>>());
+    t
+}
+
+fn v1_footer(cashash: &MerkleHash, hashes: &[MerkleHash], bounds: &[u32], unpacked: &[u32], n: u32) -> Vec<u8> {
+    let boff = (7 + 1 + 4 + 4 * bounds.len() + 4 * unpacked.len() + 4 + 4 + 4 + 16) as u32;
+    let hoff = (7 + 1 + 4 + 32 * hashes.len()) as u32 + boff;
+    let mut v = vec![];
+    v.extend_from_slice(b"XETBLOB"); v.push(1); v.extend_from_slice(&hash_bytes(cashash));
+    v.extend_from_slice(b"XBLBHSH"); v.push(0); v.extend_from_slice(&n.to_le_bytes());
+    for h in hashes { v.extend_from_slice(&hash_bytes(h)); }
+    v.extend_from_slice(b"XBLBBND"); v.push(1); v.extend_from_slice(&n.to_le_bytes());
+    for b in bounds { v.extend_from_slice(&b.to_le_bytes()); }
+    for b in unpacked { v.extend_from_slice(&b.to_le_bytes()); }
+    v.extend_from_slice(&n.to_le_bytes()); v.extend_from_slice(&hoff.to_le_bytes()); v.extend_from_slice(&boff.to_le_bytes());
+    v.extend_from_slice(&[0u8; 16]);
+    v
+}
+fn v0_footer(cashash: &MerkleHash, hashes: &[MerkleHash], bounds: &[u32]) -> Vec<u8> {
+    let mut v = vec![];
+    v.extend_from_slice(b"XETBLOB"); v.push(0); v.extend_from_slice(&hash_bytes(cashash));
+    v.extend_from_slice(&(bounds.len() as u32).to_le_bytes());
+    for b in bounds { v.extend_from_slice(&b.to_le_bytes()); }
+    for h in hashes { v.extend_from_slice(&hash_bytes(h)); }
+    v.extend_from_slice(&[0u8; 16]);
+    v
+}
+fn with_len(mut stream: Vec<u8>, footer: &[u8]) -> Vec<u8> {
+    stream.extend_from_slice(footer);
+    stream.extend_from_slice(&(footer.len() as u32).to_le_bytes());
+    stream
+}
+
+// ---------------------------------------------------------------------------------------------------------------------------------
+// readers
+// ---------------------------------------------------------------------------------------------------------------------------------
+
+struct Dribble<'a> {
+    data: &'a [u8],
+    pos: usize,
+    sizes: Vec<usize>,
+    k: usize,
+    pending_every: usize,
+    polls: usize,
+    fail_at: Option<usize>,
+}
+impl futures::io::AsyncRead for Dribble<'_> {
+    fn poll_read(mut self: Pin<&mut Self>, cx: &mut Context<'_>, buf: &mut [u8]) -> Poll<std::io::Result<usize>> {
+        self.polls += 1;
+        if self.pending_every > 0 && self.polls % self.pending_every == 0 {
+            cx.waker().wake_by_ref();
+            return Poll::Pending;
+        }
+        let mut n = self.sizes[self.k % self.sizes.len()].min(buf.len()).min(self.data.len() - self.pos);
+        self.k += 1;
+        if let Some(f) = self.fail_at {
+            if self.pos >= f {
+                return Poll::Ready(Err(std::io::Error::new(std::io::ErrorKind::Other, "scripted read failure")));
+            }
+            n = n.min(f - self.pos);
+        }
+        let p = self.pos;
+        buf[..n].copy_from_slice(&self.data[p..p + n]);
+        self.pos += n;
+        Poll::Ready(Ok(n))
+    }
+}
+
+#[derive(Clone, Copy, PartialEq, Debug)]
+enum Exp {
+    /// accepted, returned footer == truth, with this go_back_bytes and this info_length
+    Accept(Option<usize>, u32),
+    Reject,
+}
+
+type Outcome = Result<Option<(CasObject, Option<usize>)>, String>;
+
+fn validate_with(reader_kind: usize, bytes: &[u8], h: &MerkleHash, fail_at: Option<usize>) -> Result<Outcome, String> {
+    let run = || -> Outcome {
+        match reader_kind {
+            0 if fail_at.is_none() => block_on(async { let mut r: &[u8] = bytes; validate_cas_object_from_async_read(&mut r, h).await }).map_err(|e| e.to_string()),
+            _ => {
+                let (sizes, pending_every) = match reader_kind {
+                    0 => (vec![usize::MAX], 0),
+                    1 => (vec![1], 0),
+                    2 => (vec![3, 1, 13, 2, 8, 5, 7, 64, 1, 9], 0),
+                    _ => (vec![5, 4096, 1, 8], 3),
+                };
+                let mut r = Dribble { data: bytes, pos: 0, sizes, k: 0, pending_every, polls: 0, fail_at };
+                block_on(validate_cas_object_from_async_read(&mut r, h)).map_err(|e| e.to_string())
+            },
+        }
+    };
+    catch_unwind(AssertUnwindSafe(run)).map_err(|e| e.downcast_ref::<String>().cloned().or_else(|| e.downcast_ref::<&str>().map(|s| s.to_string())).unwrap_or_default())
+}
+
+const READERS: [&str; 4] = ["a reader delivering everything at once", "a reader delivering 1 byte per read", "a reader delivering pieces of 3/1/13/2/8/5/7/64/1/9 bytes", "a reader delivering pieces of 5/4096/1/8 bytes and answering Pending on every third poll"];
+
+fn footer_matches(cas: &CasObject, t: &Truth, h: &MerkleHash) -> Result<(), String> {
+    let i = &cas.info;
+    let k = t.hashes.len();
+    if i.cashash != *h { return Err(format!("cashash {} != requested {}", i.cashash.hex(), h.hex())); }
+    if i.num_chunks as usize != k { return Err(format!("num_chunks {} but the stream holds {k} chunks", i.num_chunks)); }
+    if i.chunk_hashes != t.hashes { return Err("chunk_hashes differ from the hashes of the chunk data".into()); }
+    if i.chunk_boundary_offsets != t.bounds { return Err(format!("chunk_boundary_offsets {:?} but the stored chunks end at {:?}", i.chunk_boundary_offsets, t.bounds)); }
+    if i.unpacked_chunk_offsets != t.unpacked { return Err(format!("unpacked_chunk_offsets {:?} but the chunk data ends at {:?}", i.unpacked_chunk_offsets, t.unpacked)); }
+    let boff = (7 + 1 + 4 + 8 * k + 4 + 4 + 4 + 16) as u32;
+    if &i.ident != b"XETBLOB" || i.version != 1 || &i.ident_hash_section != b"XBLBHSH" || i.hashes_version != 0 || &i.ident_boundary_section != b"XBLBBND" || i.boundaries_version != 1
+        || i.boundary_section_offset_from_end != boff || i.hashes_section_offset_from_end != boff + (12 + 32 * k) as u32
+    {
+        return Err(format!("idents / versions / section offsets ({}, {}) are not those of a V1 footer for {k} chunks", i.hashes_section_offset_from_end, i.boundary_section_offset_from_end));
+    }
+    Ok(())
+}
+
+fn check(what: &str, bytes: &[u8], h: &MerkleHash, t: &Truth, exp: Exp) {
+    for (rk, rname) in READERS.iter().enumerate() {
+        let ctx = format!("{what} ({} bytes), validated for hash {} through {rname}", bytes.len(), h.hex());
+        match validate_with(rk, bytes, h, None) {
+            Err(p) => witness(format!("{ctx}: the streaming validator panicked: {p}")),
+            Ok(Ok(Some((cas, gb)))) => match exp {
+                Exp::Reject => witness(format!("{ctx}: the streaming validator ACCEPTS it (go_back_bytes {gb:?}, info_length {}, {} chunks)", cas.info_length, cas.info.num_chunks)),
+                Exp::Accept(want_gb, want_il) => {
+                    if let Err(why) = footer_matches(&cas, t, h) {
+                        witness(format!("{ctx}: the streaming validator ACCEPTS it and returns a footer that does not match the chunk data: {why}"));
+                    }
+                    if gb != want_gb || cas.info_length != want_il {
+                        witness(format!("{ctx}: accepted with go_back_bytes {gb:?} and info_length {}, documented are {want_gb:?} and {want_il}", cas.info_length));
+                    }
+                },
+            },
+            Ok(Ok(None)) | Ok(Err(_)) => {
+                if let Exp::Accept(..) = exp {
+                    witness(format!("{ctx}: the streaming validator REJECTS it"));
+                }
+            },
+        }
+    }
+}
+
+fn small_streams(seed: u64) {
+    let mut x = seed.wrapping_mul(0x9E37_79B9_7F4A_7C15) ^ 0x1234_5678_9ABC_DEF1;
+    let mut rnd = move || { x ^= x << 13; x ^= x >> 7; x ^= x << 17; x };
+    let mut bytes_of = |n: usize| -> Vec<u8> { (0..n).map(|_| (rnd() >> 24) as u8).collect() };
+    let lists: Vec<Vec<Vec<u8>>> = vec![
+        vec![bytes_of(1)],
+        vec![bytes_of(100), bytes_of(1), bytes_of(257)],
+        (0..12).map(|i| bytes_of(1 + 7 * i)).collect(),
+        // a chunk whose first stored bytes look like the footer ident (payload, not a header)
+        vec![b"XETBLOB\x01 payload that starts like a footer".to_vec(), bytes_of(9)],
+    ];
+    for chunks in &lists {
+        let t = build(chunks);
+        let k = chunks.len();
+        let d = |s: &str| format!("stream of {k} stored chunks of lengths {:?} {s}", chunks.iter().map(|c| c.len()).collect::<Vec<_>>());
+        let api_root = merkledb::aggregate_hashes::cas_node_hash(&t.hashes.iter().zip(chunks).map(|(h, c)| (*h, c.len())).collect::<Vec<_>>());
+        if api_root != t.root || chunks.iter().zip(&t.hashes).any(|(c, h)| compute_data_hash(c) != *h) {
+            witness(format!("{}: cas_node_hash / compute_data_hash ({}) differ from the published construction ({})", d(""), api_root.hex(), t.root.hex()));
+        }
+        let f1 = v1_footer(&t.root, &t.hashes, &t.bounds, &t.unpacked, k as u32);
+        let f0 = v0_footer(&t.root, &t.hashes, &t.bounds);
+        let mut other = t.root;
+        other[2] ^= 1 << 40;
+        // 1. the three valid forms, own hash / another hash
+        check(&d("without footer"), &t.stream, &t.root, &t, Exp::Accept(Some(0), 0));
+        check(&d("with a V1 footer"), &with_len(t.stream.clone(), &f1), &t.root, &t, Exp::Accept(None, f1.len() as u32));
+        // (V0: the validator stops at the 8 bytes ident + version, builds a new footer and asks the caller to go back 8 bytes)
+        check(&d("with a V0 footer"), &with_len(t.stream.clone(), &f0), &t.root, &t, Exp::Accept(Some(8), 0));
+        check(&d("without footer"), &t.stream, &other, &t, Exp::Reject);
+        check(&d("with a V1 footer"), &with_len(t.stream.clone(), &f1), &other, &t, Exp::Reject);
+        check(&d("with a V0 footer"), &with_len(t.stream.clone(), &f0), &other, &t, Exp::Reject);
+        let f1_other = v1_footer(&other, &t.hashes, &t.bounds, &t.unpacked, k as u32);
+        check(&d("with a V1 footer naming another hash"), &with_len(t.stream.clone(), &f1_other), &other, &t, Exp::Reject);
+        check(&d("with a V1 footer naming another hash"), &with_len(t.stream.clone(), &f1_other), &t.root, &t, Exp::Reject);
+        // 2. trailing garbage shorter than a header
+        for g in 1..8usize {
+            for fill in [0u8, 0xFF, b'X'] {
+                let mut s = t.stream.clone();
+                s.extend(std::iter::repeat(fill).take(g));
+                check(&d(&format!("followed by {g} stray bytes {fill:#04x}")), &s, &t.root, &t, Exp::Reject);
+            }
+            let mut s = t.stream.clone();
+            s.extend_from_slice(&b"XETBLOB"[..g.min(7)]);
+            check(&d(&format!("followed by the first {g} bytes of the footer ident")), &s, &t.root, &t, Exp::Reject);
+        }
+        // 3. eight and more trailing bytes
+        for (name, tail) in [
+            ("8 bytes 0xFF", vec![0xFFu8; 8]),
+            ("the ident with version byte 2", b"XETBLOB\x02".to_vec()),
+            ("the ident with version byte 255", b"XETBLOB\xFF".to_vec()),
+            ("the ident with version byte 1 and nothing else", b"XETBLOB\x01".to_vec()),
+            ("a chunk header announcing 5 stored bytes that do not follow", vec![0, 5, 0, 0, 0, 5, 0, 0]),
+            ("a chunk header with version 1", vec![1, 0, 0, 0, 0, 0, 0, 0]),
+            ("a chunk header with scheme 3", vec![0, 0, 0, 0, 3, 0, 0, 0]),
+            ("9 zero bytes", vec![0u8; 9]),
+        ] {
+            let mut s = t.stream.clone();
+            s.extend_from_slice(&tail);
+            check(&d(&format!("followed by {name}")), &s, &t.root, &t, Exp::Reject);
+        }
+        // eight zero bytes ARE a chunk (empty, stored): the stream then holds k+1 chunks and hashes differently
+        {
+            let mut s = t.stream.clone();
+            s.extend_from_slice(&[0u8; 8]);
+            check(&d("followed by 8 zero bytes (an empty stored chunk)"), &s, &t.root, &t, Exp::Reject);
+        }
+        // 4. V1 footer cut at every offset, and followed by further bytes
+        let full = with_len(t.stream.clone(), &f1);
+        for cut in t.stream.len() + 1..full.len() {
+            if k > 3 && cut > t.stream.len() + 60 && cut + 30 < full.len() && cut % 7 != 0 {
+                continue; // (long footers: the first 60, every 7th and the last 30 offsets)
+            }
+            check(&d(&format!("with a V1 footer, cut after {} of the {} footer + length bytes", cut - t.stream.len(), full.len() - t.stream.len())), &full[..cut], &t.root, &t, Exp::Reject);
+        }
+        for extra in [vec![0u8], vec![0u8; 4], (f1.len() as u32).to_le_bytes().to_vec(), vec![0u8; 8], vec![0x55; 9]] {
+            let mut s = full.clone();
+            s.extend_from_slice(&extra);
+            check(&d(&format!("with a V1 footer and {} further bytes after the length field", extra.len())), &s, &t.root, &t, Exp::Reject);
+        }
+        for il in [0u32, f1.len() as u32 - 1, f1.len() as u32 + 1, f1.len() as u32 - 8, (f1.len() + t.stream.len()) as u32, u32::MAX] {
+            let mut s = t.stream.clone();
+            s.extend_from_slice(&f1);
+            s.extend_from_slice(&il.to_le_bytes());
+            check(&d(&format!("with a V1 footer of {} bytes followed by the length field {il}", f1.len())), &s, &t.root, &t, Exp::Reject);
+        }
+        // 5. V1 footers that contradict the chunk data
+        {
+            let mut hs = t.hashes.clone();
+            hs[k / 2][0] ^= 1;
+            check(&d(&format!("with a V1 footer whose chunk hash #{} has one bit changed", k / 2)), &with_len(t.stream.clone(), &v1_footer(&t.root, &hs, &t.bounds, &t.unpacked, k as u32)), &t.root, &t, Exp::Reject);
+            for (name, delta) in [("one more", 1i64), ("one less", -1)] {
+                let mut b = t.bounds.clone();
+                b[k - 1] = (b[k - 1] as i64 + delta) as u32;
+                check(&d(&format!("with a V1 footer whose last boundary offset is {name}")), &with_len(t.stream.clone(), &v1_footer(&t.root, &t.hashes, &b, &t.unpacked, k as u32)), &t.root, &t, Exp::Reject);
+                let mut u = t.unpacked.clone();
+                u[0] = (u[0] as i64 + delta) as u32;
+                check(&d(&format!("with a V1 footer whose first unpacked offset is {name}")), &with_len(t.stream.clone(), &v1_footer(&t.root, &t.hashes, &t.bounds, &u, k as u32)), &t.root, &t, Exp::Reject);
+                let mut u = t.unpacked.clone();
+                u[k - 1] = (u[k - 1] as i64 + delta) as u32;
+                check(&d(&format!("with a V1 footer whose last unpacked offset is {name}")), &with_len(t.stream.clone(), &v1_footer(&t.root, &t.hashes, &t.bounds, &u, k as u32)), &t.root, &t, Exp::Reject);
+            }
+            // a footer for one chunk more / one chunk less than the stream holds (tables consistent with its own count)
+            let mut hs = t.hashes.clone(); hs.push(leaf_hash(b"")); let mut b = t.bounds.clone(); b.push(b[k - 1] + 8); let mut u = t.unpacked.clone(); u.push(u[k - 1]);
+            check(&d("with a V1 footer listing one (empty) chunk more"), &with_len(t.stream.clone(), &v1_footer(&t.root, &hs, &b, &u, k as u32 + 1)), &t.root, &t, Exp::Reject);
+            if k > 1 {
+                check(&d("with a V1 footer listing one chunk less"), &with_len(t.stream.clone(), &v1_footer(&t.root, &t.hashes[..k - 1], &t.bounds[..k - 1], &t.unpacked[..k - 1], k as u32 - 1)), &t.root, &t, Exp::Reject);
+                // and the chunk data of one chunk less under the full footer
+                let shorter = t.stream[..t.bounds[k - 2] as usize].to_vec();
+                check(&d("minus its last chunk, with the V1 footer of the full list"), &with_len(shorter.clone(), &f1), &t.root, &t, Exp::Reject);
+                check(&d("minus its last chunk, without footer"), &shorter, &t.root, &t, Exp::Reject);
+            }
+        }
+        // 6. chunk data damaged (stored chunks: every payload bit matters), all three forms
+        {
+            let mut s = t.stream.clone();
+            let p = 8 + chunks[0].len() / 2;
+            s[p] ^= 0x10;
+            check(&d(&format!("with payload byte {p} changed, without footer")), &s, &t.root, &t, Exp::Reject);
+            check(&d(&format!("with payload byte {p} changed, with the V1 footer")), &with_len(s.clone(), &f1), &t.root, &t, Exp::Reject);
+            check(&d(&format!("with payload byte {p} changed, with the V0 footer")), &with_len(s.clone(), &f0), &t.root, &t, Exp::Reject);
+        }
+        // 7. readers failing mid-stream: never an acceptance, never a panic
+        let full0 = with_len(t.stream.clone(), &f0);
+        for (form, bytes) in [("without footer", &t.stream), ("with a V1 footer", &full), ("with a V0 footer", &full0)] {
+            let mut points = vec![0usize, 1, 7, 8, 9, t.bounds[0] as usize - 1, t.bounds[0] as usize, t.stream.len() - 1, t.stream.len()];
+            points.extend([t.stream.len() + 1, t.stream.len() + 7, t.stream.len() + 8, t.stream.len() + 9, bytes.len().saturating_sub(5), bytes.len().saturating_sub(4), bytes.len().saturating_sub(1)]);
+            points.sort(); points.dedup();
+            for at in points.into_iter().filter(|p| *p < bytes.len()) {
+                for rk in [0usize, 1, 3] {
+                    let ctx = format!("{}, through {} that fails with an I/O error after delivering {at} of {} bytes", d(form), READERS[rk], bytes.len());
+                    match validate_with(rk, bytes, &t.root, Some(at)) {
+                        Err(p) => witness(format!("{ctx}: the streaming validator panicked: {p}")),
+                        // (a V0 stream is accepted once the 8 bytes ident + version have been seen: nothing after them is read)
+                        Ok(Ok(Some((_, gb)))) if !(form == "with a V0 footer" && at >= t.stream.len() + 8 && gb == Some(8)) => witness(format!("{ctx}: the streaming validator ACCEPTS the stream (go_back_bytes {gb:?})")),
+                        _ => {},
+                    }
+                }
+            }
+        }
+    }
+    // the empty stream: no chunk, no footer.  Observed on HEAD and not judged beyond "no panic, footer sound": see the final line.
+    for h in [MerkleHash::default(), leaf_hash(b"x")] {
+        match validate_with(0, &[], &h, None) {
+            Err(p) => witness(format!("the streaming validator panicked on the empty stream (hash {}): {p}", h.hex())),
+            Ok(Ok(Some((cas, gb)))) => {
+                if h != MerkleHash::default() || cas.info.num_chunks != 0 || !cas.info.chunk_hashes.is_empty() || !cas.info.chunk_boundary_offsets.is_empty() || !cas.info.unpacked_chunk_offsets.is_empty() {
+                    witness(format!("the streaming validator ACCEPTS the empty stream for hash {} with a footer of {} chunks (go_back_bytes {gb:?})", h.hex(), cas.info.num_chunks));
+                }
+                println!("note: the empty stream is accepted for the all-zero hash (footer with 0 chunks, go_back_bytes {gb:?})");
+            },
+            _ => {},
+        }
+    }
+}
+
+// ---------------------------------------------------------------------------------------------------------------------------------
+// (B) unpacked totals around 2^32
+// ---------------------------------------------------------------------------------------------------------------------------------
+
+fn big_stream(n: usize) -> Result<String, String> {
     let chunk = vec![0u8; 128 * 1024];
     let chunk_hash = compute_data_hash(&chunk);
     let mut one = Vec::new();
     serialize_chunk(&chunk, &mut one, Some(CompressionScheme::LZ4)).unwrap();
-    for n in [32767usize, 32768, 32769, 40000] {
-        let mut stream = Vec::with_capacity(one.len() * n);
-        for _ in 0..n {
-            stream.extend_from_slice(&one);
-        }
-        let list: Vec<(merklehash::MerkleHash, usize)> = (0..n).map(|_| (chunk_hash, chunk.len())).collect();
-        let hash = merkledb::aggregate_hashes::cas_node_hash(&list);
-        let total: u64 = (n * chunk.len()) as u64;
-        let r = catch_unwind(AssertUnwindSafe(|| block_on(validate_cas_object_from_async_read(&mut &stream[..], &hash))));
-        match r {
-            Err(e) => {
-                let msg = e.downcast_ref::<String>().cloned().or_else(|| e.downcast_ref::<&str>().map(|s| s.to_string())).unwrap_or_default();
-                println!("WITNESS the streaming validator panicked on a footer-less stream of {n} LZ4 chunks of 128 KiB zeros ({} bytes on the wire): {msg}", stream.len());
-                std::process::exit(1);
-            },
-            Ok(Err(_)) | Ok(Ok(None)) => {
-                println!("{n} chunks ({total} unpacked bytes): rejected");
-            },
-            Ok(Ok(Some((cas, _)))) => {
-                // accepted: the generated footer must describe the chunk data
-                let offs = &cas.info.unpacked_chunk_offsets;
-                let mut want = 0u64;
-                for (i, o) in offs.iter().enumerate() {
-                    want += chunk.len() as u64;
-                    if *o as u64 != want {
-                        println!(
-                            "WITNESS the streaming validator ACCEPTED a footer-less stream of {n} LZ4 chunks of 128 KiB zeros ({} bytes on the wire, {total} unpacked) and returned a footer whose unpacked offset #{i} is {o}, the chunk data ends at {want} (last offsets: {:?})",
-                            stream.len(), &offs[offs.len().saturating_sub(3)..]
-                        );
-                        std::process::exit(1);
-                    }
+    let mut stream = Vec::with_capacity(one.len() * n);
+    for _ in 0..n {
+        stream.extend_from_slice(&one);
+    }
+    let list: Vec<(MerkleHash, usize)> = (0..n).map(|_| (chunk_hash, chunk.len())).collect();
+    let hash = merkledb::aggregate_hashes::cas_node_hash(&list);
+    let total: u64 = (n * chunk.len()) as u64;
+    let r = catch_unwind(AssertUnwindSafe(|| block_on(validate_cas_object_from_async_read(&mut &stream[..], &hash))));
+    match r {
+        Err(e) => {
+            let msg = e.downcast_ref::<String>().cloned().or_else(|| e.downcast_ref::<&str>().map(|s| s.to_string())).unwrap_or_default();
+            Err(format!("the streaming validator panicked on a footer-less stream of {n} LZ4 chunks of 128 KiB zeros ({} bytes on the wire): {msg}", stream.len()))
+        },
+        Ok(Err(_)) | Ok(Ok(None)) => {
+            if total <= u32::MAX as u64 {
+                return Err(format!("the streaming validator REJECTS a well-formed footer-less stream of {n} LZ4 chunks of 128 KiB zeros ({} bytes on the wire, {total} unpacked bytes - within the u32 range of the footer)", stream.len()));
+            }
+            Ok(format!("{n} chunks ({total} unpacked bytes): rejected"))
+        },
+        Ok(Ok(Some((cas, gb)))) => {
+            // accepted: the generated footer must describe the chunk data
+            let offs = &cas.info.unpacked_chunk_offsets;
+            let mut want = 0u64;
+            for (i, o) in offs.iter().enumerate() {
+                want += chunk.len() as u64;
+                if *o as u64 != want {
+                    return Err(format!(
+                        "the streaming validator ACCEPTED a footer-less stream of {n} LZ4 chunks of 128 KiB zeros ({} bytes on the wire, {total} unpacked) and returned a footer whose unpacked offset #{i} is {o}, the chunk data ends at {want} (last offsets: {:?})",
+                        stream.len(), &offs[offs.len().saturating_sub(3)..]
+                    ));
                 }
-                if offs.len() != n {
-                    println!("WITNESS accepted with {} unpacked offsets for {n} chunks", offs.len());
-                    std::process::exit(1);
-                }
-                println!("{n} chunks ({total} unpacked bytes): accepted, generated footer matches");
+            }
+            if offs.len() != n {
+                return Err(format!("accepted with {} unpacked offsets for {n} chunks", offs.len()));
+            }
+            let i = &cas.info;
+            if i.num_chunks as usize != n || i.chunk_hashes.len() != n || i.chunk_hashes.iter().any(|h| *h != chunk_hash) || i.cashash != hash
+                || i.chunk_boundary_offsets.len() != n || i.chunk_boundary_offsets.iter().enumerate().any(|(k, b)| *b as usize != (k + 1) * one.len())
+                || gb != Some(0) || cas.info_length != 0
+            {
+                return Err(format!("the streaming validator ACCEPTED a footer-less stream of {n} LZ4 chunks of 128 KiB zeros and returned num_chunks {}, {} hashes, {} boundaries (last {:?}, the stream has {} bytes), go_back_bytes {gb:?}, info_length {}", i.num_chunks, i.chunk_hashes.len(), i.chunk_boundary_offsets.len(), i.chunk_boundary_offsets.last(), stream.len(), cas.info_length));
+            }
+            Ok(format!("{n} chunks ({total} unpacked bytes): accepted, generated footer matches"))
+        },
+    }
+}
+
+fn main() {
+    let seed: u64 = std::env::var("VERIF_SEED").ok().and_then(|s| s.parse().ok()).unwrap_or(0);
+    let sizes = [32767usize, 32768, 32769, 40000];
+    // the four big streams are independent: run them beside the small-stream classes
+    let handles: Vec<_> = sizes.iter().map(|n| { let n = *n; std::thread::spawn(move || big_stream(n)) }).collect();
+    std::panic::set_hook(Box::new(|_| {}));
+    small_streams(seed);
+    for (h, n) in handles.into_iter().zip(sizes) {
+        match h.join() {
+            Ok(Ok(line)) => println!("{line}"),
+            Ok(Err(w)) => witness(w),
+            Err(_) => {
+                println!("infrastructure: the thread for the stream of {n} chunks died");
+                std::process::exit(2);
             },
         }
     }
